@@ -66,7 +66,9 @@ def sandbox_side(src, inputs, calls, files=None, threaded=False, input_mode='set
             r = S.call(name, *[eval(a) for a in args], **kw)
             v = unwrap_value(r)
             if isinstance(v, BaseException):
-                out['calls'].append(['raise', type(v).__name__])
+                # ... and where: the line of the student's file the runtime feedback of this call points at
+                where = sb.feedback.location.line if sb.feedback is not None and sb.feedback.location is not None else None
+                out['calls'].append(['raise', type(v).__name__, where])
             else:
                 # the value as the grader sees it: through the returned proxy
                 try:
